@@ -19,6 +19,8 @@ type PO struct {
 	ev    []Event
 	sol   *Solver
 	base  []string
+	rf    map[int][]string // read event -> its read-from constraints (left out when the read itself is the subject of a race query)
+	skip  map[int]bool
 	stats struct{ queries, sat, unsat, unknown int }
 }
 
@@ -27,7 +29,7 @@ func clock(i int) string { return fmt.Sprintf("c%d", i) }
 func lt(a, b int) string { return fmt.Sprintf("(< c%d c%d)", a, b) }
 
 func NewPO(events []Event, sol *Solver) *PO {
-	p := &PO{ev: events, sol: sol}
+	p := &PO{ev: events, sol: sol, rf: map[int][]string{}, skip: map[int]bool{}}
 	p.build()
 	// the base constraints stay asserted for all queries on this trace
 	p.sol.Send("(push)")
@@ -284,7 +286,7 @@ func (p *PO) build() {
 		if len(cands) == 0 {
 			// reads the initial value: every writer of a different value comes later
 			for _, w := range others {
-				add("(assert " + lt(i, w) + ")")
+				p.rf[i] = append(p.rf[i], "(assert "+lt(i, w)+")")
 			}
 			continue
 		}
@@ -296,7 +298,7 @@ func (p *PO) build() {
 			}
 			alts = append(alts, "(and "+strings.Join(conj, " ")+")")
 		}
-		add("(assert (or " + strings.Join(alts, " ") + "))")
+		p.rf[i] = append(p.rf[i], "(assert (or "+strings.Join(alts, " ")+"))")
 	}
 }
 
@@ -304,6 +306,11 @@ func (p *PO) build() {
 // the witnessing total order of events is returned.
 func (p *PO) Query(extra ...string) (Verdict, []int) {
 	p.sol.Send("(push)")
+	for i, cs := range p.rf {
+		if !p.skip[i] {
+			p.sol.Send(cs...)
+		}
+	}
 	for _, x := range extra {
 		p.sol.Send("(assert " + x + ")")
 	}
@@ -382,7 +389,10 @@ func (p *PO) Races(ignore func(loc string) bool) ([]Race, int) {
 					continue
 				}
 				checked++
+				// the two accesses themselves need not keep their observed values
+				p.skip = map[int]bool{idx[a]: true, idx[b]: true}
 				v, order := p.Query(fmt.Sprintf("(= c%d c%d)", idx[a], idx[b]))
+				p.skip = map[int]bool{}
 				if v == Sat {
 					seen[key] = true
 					out = append(out, Race{A: idx[a], B: idx[b], Loc: loc, Order: order})
